@@ -427,6 +427,62 @@ def flattened_multi_fault(ctx: Ctx, n: int, oracle=None):
                 ctx.fail("flattened:DISABLE-trail", "DebugTrail.DISABLE attached a trail", case)
 
 
+def two_location_suite(ctx: Ctx, n: int):
+    """ONE model class at several locations of one retort with DIFFERENT location-bound layouts (name_mapping(P[Outer].b,
+    extra_in=ExtraForbid()) next to the default skip; a renamed key at one location only): in whatever order the locations are
+    first used, every invalid leaf is reported at ITS location by ITS layout - a forbidden extra key under b is reported at
+    ['b'], the same key under a is not an error"""
+    import dataclasses
+
+    from adaptix import DebugTrail, ExtraForbid, P, Retort, name_mapping
+    from adaptix.load_error import ExtraFieldsLoadError, LoadError
+    rng = ctx.rng
+    for i in range(n):
+        Inner = dataclasses.make_dataclass(f"TLI{i}", [("x", int), ("y", int, dataclasses.field(default=0))])
+        order = rng.choice([("a", "b"), ("b", "a"), ("a", "b", "c"), ("c", "b", "a")])   # c: list[Inner], never the bound location
+        Outer = dataclasses.make_dataclass(f"TLO{i}", [(nm, Inner) if nm != "c" else (nm, list[Inner]) for nm in order])
+        strict_at = rng.choice(["b", "b", "a"])
+        renamed_at = rng.choice([None, None, "a", "b"])
+        recipe = [name_mapping(getattr(P[Outer], strict_at), extra_in=ExtraForbid())]
+        if renamed_at and renamed_at != strict_at:
+            recipe.append(name_mapping(getattr(P[Outer], renamed_at), map={"x": "ex"}))
+        warm = rng.choice(["none", "inner-first", "inner-first", "get-loader-inner"])
+        mode = rng.choice([DebugTrail.ALL, DebugTrail.ALL, DebugTrail.FIRST])
+        retort = Retort(recipe=recipe, debug_trail=mode)
+        if warm == "inner-first":
+            retort.load({"x": 1, "zz": 2}, Inner)
+        elif warm == "get-loader-inner":
+            retort.get_loader(Inner)
+        extra_at = [nm for nm in order if rng.random() < 0.7] or [order[0]]
+
+        def inner_datum(nm):
+            d = {("ex" if nm == renamed_at and renamed_at != strict_at else "x"): 1}
+            if nm in extra_at:
+                d["zz"] = 5
+            return d
+        datum = {nm: (inner_datum(nm) if nm != "c" else [inner_datum(nm), {"x": 2}]) for nm in order}
+        expected = sorted(((strict_at,) if strict_at != "c" else ("c", 0)) for _ in [0] if strict_at in extra_at)
+        case = {"suite": "two-location", "order": list(order), "strict_at": strict_at, "renamed_at": renamed_at, "warm": warm,
+                "extra_at": extra_at, "mode": mode.name}
+        ctx.note_case(case, nontrivial=True, kind=f"two-location:{warm}:{'hit' if expected else 'clean'}")
+        try:
+            retort.load(datum, Outer)
+            got = []
+        except LoadError as e:
+            rep = reports(e)
+            got = sorted(tuple(t) for t, leaf in rep if isinstance(leaf, ExtraFieldsLoadError))
+            other = [(list(t), type(leaf).__name__) for t, leaf in rep if not isinstance(leaf, ExtraFieldsLoadError)]
+            if other:
+                ctx.fail("two-location:other-error", f"valid fields reported as invalid: {other} (layouts {case})", case)
+                continue
+        except Exception as e:  # noqa: BLE001
+            ctx.fail("two-location:unexpected-error", f"{type(e).__name__}: {e}"[:200], case)
+            continue
+        if got != expected:
+            ctx.fail("two-location:extra-policy-of-another-location", f"unknown keys under {extra_at}, ExtraForbid bound to "
+                     f"P[Outer].{strict_at} only (fields {order}, first use: {warm}): reported at {got}, expected at {expected}", case)
+
+
 def dict_probe_specs(eng):
     tg = morph.TypeGen(eng.ctx.rng)
     k, v = tg.scalar("str"), tg.scalar("int")
@@ -510,6 +566,7 @@ def run(ctx: Ctx):
             ctx.sample({"hint": repr(spec.hint)[:120], "datum": repr(datum)[:200], "leaf_positions": [list(map(repr, p)) for p in pos[:6]]})
     renamed_layouts(ctx, ctx.budget(60, 1000))
     flattened_multi_fault(ctx, ctx.budget(60, 1500))
+    two_location_suite(ctx, ctx.budget(80, 1500))
 
 
 def _same_elems(a, b):
